@@ -6,6 +6,7 @@ package c08
 import (
 	"fmt"
 	"math/rand"
+	"os"
 	"sort"
 	"strings"
 	"sync"
@@ -72,6 +73,7 @@ func run(c *vk.Ctx) {
 		defer s.Close()
 		servers = append(servers, cachedSrv{x.n, s, oc, cfg.V2, plain})
 	}
+	directedPairs(c, base, servers)
 	sem.RunCases(c, base, "mem", c.Pick(200, 1500), gen.Options{HierarchyEvery: 3, AlgebraEvery: 5, MutualEvery: 4}, 3, 8, func(i int, r *rand.Rand, p *sem.Prepared, contextual []*openfgav1.TupleKey) {
 		oneCase(c, i, r, p, contextual, base, servers)
 	})
@@ -209,6 +211,9 @@ func oneCase(c *vk.Ctx, i int, r *rand.Rand, p *sem.Prepared, contextual []*open
 					}
 				}
 				c.Case(fmt.Sprintf("%s|%s|%s", it.api, sem.ShapeOf(p, it.rq, k), cs.name), k != ref.F)
+				if os.Getenv("VERIF_DEBUG") != "" {
+					c.Logf("DEBUG %s %s %s#%s@%s ctx=%s ctxl=%d higher=%v model=%v -> %s (ref %s)", cs.name, it.api, it.rq.Object, it.rq.Relation, it.rq.User, gen.CtxString(it.rq.Ctx), len(it.ctxl), it.higher, it.model, o, k)
+				}
 				c.Count("history_requests_"+it.api, 1)
 				v := sem.JudgeCheck(k, rc.AnyUnevaluable(), o)
 				if v == sem.Agree || v == sem.NotJudged {
